@@ -110,6 +110,24 @@ def selfcheck_json(t):
     return n
 
 
+def pair_keys(q):
+    v, c1, c2 = py(q['var']), py(q['c1']), py(q['c2'])
+    return ([v, c1], [v, c2]) if q['pos'] == 1 else ([c1, v], [c2, v])
+
+
+def selfcheck_pairs(t):
+    docs = [py(d) for d in t['docs']]
+    n = 0
+    for qi, q in enumerate(t['pairq']):
+        for di, doc in enumerate(docs):
+            for keys, exp in zip(pair_keys(q), t['pairs'][qi][di]):
+                st, v = py_path(doc, keys)
+                if (st == 'ok') != (exp['t'] != 'missing') or (st == 'ok' and not same(v, py(exp))):
+                    raise MachineryError('JsonDocTables.PairTable disagrees with CPython: %r%s -> %r, model %r' % (doc, keys, (st, v), exp))
+                n += 1
+    return n
+
+
 def arr_query_py(q, arr):
     kind = q['q']
     if kind == 'index':
@@ -361,8 +379,54 @@ class JsonChecker(object):
                     src, 'selects' if rid in got else 'does not select', self.docs[di], exp == 'T') +
                     (' (params %r)' % params if params else ''), kind, src, params, di)
 
+    def run_pairs(self):
+        """Two parametrised paths in one query: (x.id, x.data[v][c1], x.data[v][c2]) with v a statement parameter."""
+        t = self.t
+        for qi, q in enumerate(t['pairq']):
+            k1, k2 = pair_keys(q)
+            if q['pos'] == 1:
+                e1, e2 = 'x.data[v][%r]' % k1[1], 'x.data[v][%r]' % k2[1]
+            else:
+                e1, e2 = 'x.data[%r][v]' % k1[0], 'x.data[%r][v]' % k2[0]
+            src = '(x.id, %s, %s)' % (e1, e2)
+            params = {'v': py(q['var'])}
+            quote = self.has_quote(k1 + k2)
+            groups = {}
+            for di in range(len(self.docs)):
+                a1, a2 = t['pairs'][qi][di]
+                groups.setdefault((a1.get('why'), a2.get('why'), type(self.docs[di])), []).append(di + 1)
+            res = self.runner.run(src, None, params, self.ids, list(groups.values()))
+            self.c['queries'] += 1
+            if res is None:
+                self.c['refused'] += 1
+                continue
+            got = {r[0]: r[1:] for r in res['rows']}
+            for di in range(len(self.docs)):
+                rid = di + 1
+                answers = t['pairs'][qi][di]
+                if rid in res['errors']:
+                    self.c['cells'] += 1
+                    bad = [a for a in answers if a.get('why') == 'key-on-list'] or [answers[0]]
+                    self.mismatch(self.error_signature(k1 + k2, {'path': bad[0]}, di), '%s for x in J (v=%r) fails with %s on the document %r' % (
+                        src, params['v'], res['errors'][rid], self.docs[di]), 'pair', src, params, di)
+                    continue
+                for n, a in enumerate(answers):
+                    if a.get('why') == 'index-on-str':
+                        continue
+                    exp = None if a['t'] == 'missing' else py(a)
+                    self.c['cells'] += 1
+                    if a['t'] != 'missing':
+                        self.c['nontrivial'].add(('pair', n, a['t']))
+                    if rid not in got or not same(got[rid][n], exp):
+                        sig = 'C29:path:key-containing-double-quote' if quote else 'C29:paths-sharing-a-parameter:%s' % a['t']
+                        self.mismatch(sig, '%s for x in J with v=%r gives %r for the document %r, Python gives %r for path %d' % (
+                            src, params['v'], got.get(rid, '<no row>'), self.docs[di], exp, n + 1), 'pair', src, params, di)
+            if len(self.ctx.violations) >= self.ctx.max_violations:
+                return
+
     def run(self):
         t = self.t
+        self.run_pairs()
         consts = [py(c) for c in t['consts']]
         for ki, tkeys in enumerate(t['keys']):
             keys = [py(k) for k in tkeys]
@@ -592,7 +656,7 @@ def run(ctx):
     t, res = tlc.evaluate('JsonDocTables', ctx.scratch, inputs={'tier': ctx.tier})
     if t['keyorder'] != sorted(t['keyorder']) or t['strlens'] != [len(k) for k in t['keyorder']]:
         raise MachineryError('KeyOrder / StrLens of JsonDoc.tla do not match Python')
-    checked = selfcheck_json(t) + selfcheck_arrays(t)
+    checked = selfcheck_json(t) + selfcheck_arrays(t) + selfcheck_pairs(t)
     counters = {'queries': 0, 'refused': 0, 'cells': 0, 'nontrivial': set(), 'path_roundtrips': 0, 'pg_judged': 0, 'statements': 0, 'assumed': 0}
     for mode in ('json1', 'fallback'):
         jc = JsonChecker(ctx, t, mode, counters)
@@ -620,7 +684,7 @@ def run(ctx):
         'exhaustive': True,
         'queries_executed': counters['queries'], 'queries_refused_by_pony': counters['refused'],
         'statements_executed': counters['statements'], 'failing_rows_assumed_from_their_group': counters['assumed'],
-        'documents': len(t['docs']), 'key_sequences': len(t['keys']), 'int_arrays': len(t['intarrs']), 'str_arrays': len(t['strarrs']),
+        'documents': len(t['docs']), 'key_sequences': len(t['keys']), 'two_path_queries_sharing_a_parameter': len(t['pairq']), 'int_arrays': len(t['intarrs']), 'str_arrays': len(t['strarrs']),
         'oracle_cells_checked_against_cpython': checked,
         'path_key_sequences': counters['path_roundtrips'], 'pg_literals_judged': counters['pg_judged'],
         'transcription_agrees_with_code_on': counters.get('transcription_agrees'),
